@@ -547,5 +547,5 @@ func classS(c SCase) fx.Class {
 
 func TestServerHistories(t *testing.T) {
 	fx.Prelease(3)
-	fx.Run(t, fx.Spec[SCase]{Prop: "C09", Name: "server_histories", Quick: 1200, Thorough: 40000, Gen: genS, Run: runS, Class: classS})
+	fx.Run(t, fx.Spec[SCase]{Prop: "C09", Name: "server_histories", Journal: true, Quick: 1200, Thorough: 40000, Gen: genS, Run: runS, Class: classS})
 }
